@@ -78,6 +78,9 @@ func replaceSuffixes(inputLines *bytes.Buffer, suffixReplacements map[string]str
 		sb.WriteString(entry)
 		sb.WriteRune('\n')
 	}
+	if err := scanner.Err(); err != nil {
+		return "", err
+	}
 	return sb.String(), nil
 }
 
@@ -92,6 +95,9 @@ func removeExclusions(parser *Parser, excludeFileNames []string, includeMap map[
 			delete(includeMap, exclusion)
 			logger.Debug().Msgf("Excluded entry from include file: %s", exclusion)
 		}
+		if err := scanner.Err(); err != nil {
+			logger.Fatal().Err(err).Msgf("failed to read exclusions from %s", fileName)
+		}
 	}
 }
 
@@ -105,6 +111,9 @@ func buildinclusionLineMap(parser *Parser, includeFileName string) (inclusionLin
 		entry := includeScanner.Text()
 		includeMap[entry] = inclusionLine{entry, index}
 		index++
+	}
+	if err := includeScanner.Err(); err != nil {
+		logger.Fatal().Err(err).Msgf("failed to read include file %s", includeFileName)
 	}
 	return includeMap, definitions
 }
